@@ -346,13 +346,21 @@ func main() {
 	genPath := filepath.Join(verif, "lean/AGH/Gen/C08Facts.lean")
 	_ = os.Remove(genPath)
 
-	pkgs := load.Packages("./internal/dnsforward")
-	var pkg *packages.Package
+	pkgs := load.Packages("./internal/dnsforward", "./internal/home")
+	var pkg, homePkg *packages.Package
 	for _, p := range pkgs {
-		if p.PkgPath == pkgPath {
+		switch p.PkgPath {
+		case pkgPath:
 			pkg = p
+		case modPath + "/internal/home":
+			homePkg = p
 		}
 	}
+	if homePkg == nil {
+		fmt.Fprintln(os.Stderr, "extract c08: package internal/home not loaded")
+		os.Exit(1)
+	}
+	anonCalls, anonToQlog, anonToServer := anonymizerFacts(homePkg)
 	if pkg == nil {
 		fmt.Fprintln(os.Stderr, "extract c08: package internal/dnsforward not loaded")
 		os.Exit(1)
@@ -441,6 +449,7 @@ func main() {
 	fmt.Fprintf(&sb, "/-- operands of the literals assigned to `ids`: 1 realIPStr, 2 dctx.clientID, 3 other -/\ndef idsOperands : List Nat := %s\n", natList(x.idsOps))
 	fmt.Fprintf(&sb, "def idsAssignments : Nat := %d\n", x.idsAssign)
 	fmt.Fprintf(&sb, "/-- rank of `realIPStr := …` and of `ipStr := …` among the positions above -/\ndef realIPStrPos : Nat := %d\ndef ipStrPos : Nat := %d\n", rank(x.realPos), rank(x.ipStrPos))
+	fmt.Fprintf(&sb, "\n/-- internal/home: calls of (*configuration).anonymizer(); whether the variable holding the\nresult of the (single) call is the `Anonymizer` of the querylog.Config literal, and an argument of\nthe initDNSServer call (1 yes, 0 no) -/\ndef anonymizerCalls : Nat := %d\ndef anonymizerToQueryLog : Nat := %d\ndef anonymizerToServer : Nat := %d\n", anonCalls, anonToQlog, anonToServer)
 	sb.WriteString("\nend AGH.Gen.C08\n")
 	must(os.MkdirAll(filepath.Dir(genPath), 0o755))
 	must(os.WriteFile(genPath, []byte(sb.String()), 0o644))
@@ -459,6 +468,77 @@ func main() {
 	must(os.MkdirAll(factsDir, 0o755))
 	must(os.WriteFile(filepath.Join(factsDir, "facts.json"), b, 0o644))
 	fmt.Printf("c08: %d calls, ids operands %v -> %s\n", len(x.calls), x.idsOps, genPath)
+}
+
+// anonymizerFacts looks at package home: how many times the anonymizer is
+// constructed from the configuration, and whether the one variable that holds
+// it reaches both the query log's configuration and the DNS server.
+func anonymizerFacts(hp *packages.Package) (calls, toQlog, toServer int) {
+	var varName string
+	isAnonCall := func(e ast.Expr) bool {
+		ce, ok := e.(*ast.CallExpr)
+		if !ok {
+			return false
+		}
+		se, ok := ce.Fun.(*ast.SelectorExpr)
+		if !ok {
+			return false
+		}
+		f, _ := hp.TypesInfo.Uses[se.Sel].(*types.Func)
+
+		return f != nil && f.FullName() == "(*"+modPath+"/internal/home.configuration).anonymizer"
+	}
+	for _, f := range hp.Syntax {
+		if strings.HasSuffix(hp.Fset.Position(f.Pos()).Filename, "_test.go") {
+			continue
+		}
+		ast.Inspect(f, func(n ast.Node) bool {
+			switch n := n.(type) {
+			case *ast.CallExpr:
+				if isAnonCall(n) {
+					calls++
+				}
+			case *ast.AssignStmt:
+				if len(n.Lhs) == 1 && len(n.Rhs) == 1 && isAnonCall(n.Rhs[0]) {
+					if id, ok := n.Lhs[0].(*ast.Ident); ok {
+						varName = id.Name
+					}
+				}
+			}
+
+			return true
+		})
+	}
+	if varName == "" {
+		return calls, 0, 0
+	}
+	for _, f := range hp.Syntax {
+		if strings.HasSuffix(hp.Fset.Position(f.Pos()).Filename, "_test.go") {
+			continue
+		}
+		ast.Inspect(f, func(n ast.Node) bool {
+			switch n := n.(type) {
+			case *ast.KeyValueExpr:
+				if isIdent(n.Key, "Anonymizer") && isIdent(n.Value, varName) {
+					if tv, ok := hp.TypesInfo.Types[n.Value]; ok && strings.HasSuffix(tv.Type.String(), "aghnet.IPMut") {
+						toQlog = 1
+					}
+				}
+			case *ast.CallExpr:
+				if isIdent(n.Fun, "initDNSServer") {
+					for _, a := range n.Args {
+						if isIdent(a, varName) {
+							toServer = 1
+						}
+					}
+				}
+			}
+
+			return true
+		})
+	}
+
+	return calls, toQlog, toServer
 }
 
 func relPath(where string) string {
